@@ -89,6 +89,9 @@ func (r *report) processViolations() {
 			b, _ := json.MarshalIndent(rf, "", " ")
 			os.WriteFile(path, b, 0o644)
 			tries := 25
+			if v.Kind == "race" {
+				tries = 3
+			}
 			nr := r.nb.confirm(rf, path, tries)
 			r.replays++
 			rf.Native = nr
